@@ -6,9 +6,9 @@ W=/tmp/wt/$ID; S=/tmp/wt/$ID-scratch; D=/verif/seeded/$ID
 mkdir -p $D; cp $S/patch.diff $S/meta.json $D/ 2>/dev/null; cp $S/demo.* $S/build.sh $D/ 2>/dev/null
 cd $S
 echo "== demo WITH change"; (bash ./build.sh >/dev/null 2>&1; ./demo > $D/demo_with_change.out 2>&1; echo "exit=$?" | tee -a $D/demo_with_change.out)
-git -C $W stash -q
+git -C $W apply -R $D/patch.diff
 echo "== demo WITHOUT change"; (bash ./build.sh >/dev/null 2>&1; ./demo > $D/demo_without_change.out 2>&1; echo "exit=$?" | tee -a $D/demo_without_change.out)
-git -C $W stash pop -q
+git -C $W apply $D/patch.diff
 cd /verif
 git -C /repo apply $D/patch.diff || { echo "PATCH DOES NOT APPLY"; exit 2; }
 for c in $CHECKS; do
